@@ -65,7 +65,10 @@ fn letter_bytes(w: &World, letter: &str, rng: &mut Rng) -> Vec<u8> {
         "init-unknown-doc" => frame(&msg_init(w.unknown.as_bytes(), &fp)),
         "init-not-syncing-doc" => frame(&msg_init(w.not_syncing.as_bytes(), &fp)),
         "sync-fingerprint" => frame(&msg_sync(&fp)),
-        "sync-items" => frame(&msg_sync(&mk_items(w.entries.iter().take(2).map(RawEntry::of).collect()))),
+        // entries the side under test does not hold yet (it holds the first three): a Sync frame behind
+        // a declined Init must not get them into the store (changed after seeded change agent-C10-10;
+        // the frame used to carry entries the store already held, which cannot show)
+        "sync-items" => frame(&msg_sync(&mk_items(w.entries.iter().skip(3).chain(w.entries.iter().take(1)).map(RawEntry::of).collect()))),
         "sync-tampered-entry" => {
             let mut r = RawEntry::of(&w.entries[0]);
             r.author_sig[1] ^= 4;
